@@ -454,6 +454,16 @@ func runC02(c *engine.Ctx) {
 		engine.RunSeq(c, engine.SeqSpec{Name: name, World: worldName(cfg), MaxDepth: depth,
 			New: func() (engine.Sys, error) { return newC02Sys(cfg, u, ops) }})
 		c.Bounds[name] = map[string]interface{}{"buckets": u.buckets, "keys": u.keys, "bodies": u.bodies, "ops": len(ops), "max_depth": depth}
+		if !cfg.AutoBucket {
+			// nested directories: keys two and three levels deep that share ancestors, run to closure
+			un := &c02Universe{buckets: []string{"aaa"}, keys: []string{"d/s/z", "d/y", "d/s/t/w"}, bodies: []string{"A"},
+				opKinds: map[string]bool{"create": true, "put": true, "delete": true, "multi": true, "copy": true}}
+			opsn := c02BuildOps(un)
+			namen := "C02/" + worldName(cfg) + "/nested"
+			engine.RunSeq(c, engine.SeqSpec{Name: namen, World: worldName(cfg), MaxDepth: 0,
+				New: func() (engine.Sys, error) { return newC02Sys(cfg, un, opsn) }})
+			c.Bounds[namen] = map[string]interface{}{"buckets": un.buckets, "keys": un.keys, "bodies": un.bodies, "ops": len(opsn), "max_depth": "closure"}
+		}
 		if !quick(c) && !cfg.AutoBucket {
 			// larger universe (third key sharing the directory, empty body), bounded depth
 			u3 := &c02Universe{buckets: []string{"aaa", "bbb"}, keys: []string{"k", "d/x", "d/y"}, bodies: []string{"A", "BB", ""}}
